@@ -380,7 +380,7 @@ namespace ip {
 
 	bool tcp::acceptor::internal_is_listening()
 	{
-		return m_queue_size_limit > 0;
+		return m_queue_size_limit >= 0;
 	}
 }
 }
